@@ -109,6 +109,13 @@ func (v ov) ovs(c *rm.Col) interface{} {
 
 func typeAtoms(c *rm.Col, t string, n int) []rm.Atom {
 	var a []rm.Atom
+	if c != nil && len(c.Enum) > 0 && t == c.KeyT && !c.IsMap {
+		a = c.Enum
+		if n < len(a) {
+			a = a[:n]
+		}
+		return a
+	}
 	switch t {
 	case "integer":
 		a = []rm.Atom{rm.I(0), rm.I(1), rm.I(2), rm.I(-7)}
